@@ -19,9 +19,14 @@ RULE = ("label images: shapes skewed to 1x1, 1xN, Nx1, 2x2, 3x3 and up to 12x12 
 TRUSTED = ["modelled, not verified: NumPy/SciPy array semantics used by the Python code (np.unique, lexsort, fancy "
            "indexing, scipy.ndimage.sum/minimum_filter/maximum_filter) as transcribed in Model/LabelGraph.v",
            "the stack array stack_v[0..stack_ptr) of _all_connected_components is modelled as a list; uint32 "
-           "UNDEFINED = -1 is modelled as an absent map entry",
-           "euler = components - holes is proved by exhaustive kernel evaluation on small images only (Finite); the "
-           "executable flood-fill definition (Spec.LabelGraph.euler_spec) is evaluated on every generated case"]
+           "UNDEFINED = -1 is modelled as an absent map entry; the C arrays are PositiveMap-backed",
+           "euler = components - holes is proved by exhaustive kernel evaluation on small images only (Finite: all "
+           "images up to 3x3 over {0,1,2}, binary images 1x4..3x4, 4x1..4x3, 1x5, 2x5, 5x1, 5x2); the general case "
+           "rests on quad_counts_spec (Full) plus the executable flood-fill definition Spec.LabelGraph.euler_spec "
+           "evaluated on every generated case",
+           "the flood-fill executable specifications in Spec/LabelGraph.v (fill/components) are definitions, not "
+           "proved equivalent to an inductive connectivity relation; for graphs with more than 80 edges the partition is "
+           "checked by a Python union-find instead of the extracted Spec.LabelGraph.acc_ok"]
 ASSUMPTIONS = ["labels are non-negative integers; label images are rectangular and non-empty",
                "vertex numbers are non-negative and below 2^32 - 1; fewer than 2^32 edges"]
 EXHAUSTIVE = {"quick": False, "thorough": False}
@@ -175,11 +180,11 @@ def generate(ctx):
         cases.extend(_img_cases(rng, img))
     for i, j in CORPUS_GRAPHS:
         cases.append({"fn": "acc", "i": list(i), "j": list(j)})
-    for _ in range(ctx.n(260, 4000)):
+    for _ in range(ctx.n(700, 8000)):
         cases.extend(_img_cases(rng, _image(rng, big)))
     chain_max = ctx.n(3000, 50000)
-    for _ in range(ctx.n(500, 8000)):
-        i, j = _graph(rng, chain_max if rng.rand() < ctx.n(0.15, 0.02) else 200)
+    for _ in range(ctx.n(1500, 20000)):
+        i, j = _graph(rng, chain_max if rng.rand() < ctx.n(0.05, 0.004) else 200)
         cases.append({"fn": "acc", "i": i, "j": j})
     # the deep-traversal cases are always present
     for n in (chain_max, chain_max // 2):
@@ -468,15 +473,22 @@ def shrink_candidates(case):
 
 MANIFEST = {
     "level_text": (
-        "Machine-checked proofs (Coq 8.16) about an executable Gallina model of relabel, find_neighbors, color_labels, "
-        "euler_number and all_connected_components with the explicit-stack kernel _all_connected_components; see "
-        "coq/theories/Props/C15.v for the list of theorems and their strength (Full / Partial / Finite). The model is "
-        "tied to the code by exact comparison of complete outputs on every generated case (extracted OCaml, sub-sample "
+        "Machine-checked proofs (Coq 8.16, closed under the global context) about an executable Gallina model of "
+        "relabel, find_neighbors (with adjacent), color_labels, euler_number and all_connected_components with the "
+        "explicit-stack kernel _all_connected_components. Full, for every input: the depth-first labelling terminates "
+        "within the computed fuel and labels two vertices equally exactly when they are connected, for arbitrary "
+        "symmetric adjacency arrays and for every edge list (self-loops, duplicates, isolated vertices) through "
+        "symmetrise/lexsort/bincount/cumsum; relabel is an order-preserving renumbering onto 1..n; find_neighbors lists "
+        "for each label exactly the other labels with an 8-adjacent pixel, strictly increasing, and symmetrically; "
+        "color_labels gives one colour per label, background 0 and different colours to touching labels; "
+        "euler_number's shifted-plane arithmetic equals the bit-quad counts of the label's pixel set. Finite: "
+        "bit-quad count = 8-components - holes on all small images (exhaustive kernel evaluation). The model is tied "
+        "to the code by exact comparison of complete outputs on every generated case (extracted OCaml, sub-sample "
         "re-evaluated by vm_compute), and the executable flood-fill specification (components, holes, adjacency, "
-        "partition) is evaluated on the implementation's own output of every case."),
+        "partition, proper colouring) is evaluated on the implementation's own output of every case."),
     "level_note": (
         "Trusted: Coq kernel + vm_compute; extraction (ExtrOcamlBasic only) and the S-expression driver; the Python "
-        "harness; NumPy/SciPy semantics as transcribed. euler = components - holes is Finite (exhaustive small images); "
+        "harness; NumPy/SciPy semantics as transcribed. euler = components - holes is Finite in general (Partial); "
         "the tie between model and code is differential, not a proof about Python/C++."),
     "technique": "Coq proof over executable model + exact differential correspondence + executable spec on outputs",
     "design_ref": "DESIGN.md section 7, C15",
